@@ -416,6 +416,9 @@ fn post_process<R, A, M, H, K, BE: Backend>(
 
         module.glwe_pack(res, cts, log_gap_out, auto_keys, scratch_2);
     } else {
-        module.glwe_trace(res, module.log_n() - log_gap_in + 1, a, auto_keys, scratch);
+        // No repacking: the partial trace alone must isolate coefficient 0 of this row's LUT segment. Starting at level
+        // log_n - log_gap_in keeps exactly the multiples of 2^log_gap_in; one level later (+ 1) also keeps the odd
+        // multiples of 2^(log_gap_in - 1), i.e. the neighbouring rows' segments (harmless above, where glwe_pack removes them).
+        module.glwe_trace(res, module.log_n() - log_gap_in, a, auto_keys, scratch);
     }
 }
